@@ -622,8 +622,9 @@ func (fc *funcContext) LeaveBlock() int {
 func (fc *funcContext) EndScope() {
 	// DbgLocals is in declaration order; a register index is not a position
 	// in it once an earlier block's registers have been reused
+	// EndPc is exclusive: the last instruction of the block still sees its locals
 	for _, i := range fc.Block.dbgLocals {
-		fc.Proto.DbgLocals[i].EndPc = fc.Code.LastPC()
+		fc.Proto.DbgLocals[i].EndPc = fc.Code.LastPC() + 1
 	}
 }
 
